@@ -2,6 +2,8 @@ package main
 
 import (
 	"fmt"
+	"os"
+	"path/filepath"
 	"strings"
 	"time"
 
@@ -177,6 +179,28 @@ func checkC16(rc *Run) error {
 					rc.Report("retraversal:"+site, fmt.Sprintf("(%s) | %s on %s: %s, the child there is %s", F, sel, doc, got[0].JSON(), child.JSON()), concrete("("+F+") | "+sel))
 				}
 			}
+		}
+	}
+	// ---- the law on values the generators of Gen_Paths do not build (they need YAML features, or operators outside Eval.tla):
+	// path(n) is where n is reached, key(n) is the last element of path(n), keys() names what key() reports
+	type extraCase struct{ name, stdin, expr, want string }
+	extraDir := filepath.Join(rc.Out, "extra")
+	os.MkdirAll(extraDir, 0o755)
+	for _, ec := range []extraCase{
+		// a key node collected into a sequence is an element of that sequence, not a key any more
+		{"key-node-collected-into-a-sequence", "a: {b: 1, c: 2}\n", `(.x = ["p", (.a.c | key)]) | .x[1] | [path, key]`, `[["x",1],1]`},
+		// the index that `key` reports for an element of a sequence is a copy: assigning to it does not move the element
+		{"index-key-is-not-writable", "a: [10, 20]\n", `((.a[1] | key) = 7) | [.a[] | path]`, `[["a",0],["a",1]]`},
+		// after explode the entries of a map that had a merge key are entries: renaming a key through `key` renames the entry
+		{"explode-of-a-merge-keeps-entries", "a: &A {x: 1}\nb: {<<: *A, z: 1}\n", `explode(.) | ((.b.z | key) = "q") | [(.b | keys), [.b[] | key], [.b[] | path]]`, `[["x","q"],["x","q"],[["b","x"],["b","q"]]]`},
+		{"explode-of-a-merge-numbers-nothing", "a: &A {x: 1}\nb: {<<: *A, z: 1}\n", `explode(.) | [.b | ... | select(is_key) | path]`, `[["b","x"],["b","z"]]`},
+		// a document made by split_doc is a root: its path is empty, paths below it start there
+		{"split_doc-makes-roots", "d: [{e: 1}, {e: 2}]\n", `[.d[] | split_doc | [path, (.e | path)]]`, `[[[],["e"]],[[],["e"]]]`},
+	} {
+		p := runProc(extraDir, []byte(ec.stdin), "-o=json", "-I0", ec.expr)
+		if got := strings.TrimSpace(p.Stdout); p.Hang || p.Code != 0 || got != ec.want {
+			rc.Report("extra:"+ec.name, fmt.Sprintf("yq '%s' on %q prints %q (exit %d, %s); the positions give %s", ec.expr, ec.stdin, p.Stdout, p.Code, firstLine(p.Stderr), ec.want),
+				M{"machine": "Paths", "concrete": M{"argv": []string{"yq", "-o=json", "-I0", ec.expr}, "stdin": ec.stdin}, "expected": ec.want, "observed": p.Stdout})
 		}
 	}
 	rc.Set("states", g.TLC.Distinct)
